@@ -353,6 +353,17 @@ pub fn run_poly(op: &str, args: &[Arg], st: &mut Stats) -> Option<Out> {
             let (t, fs) = if op == "parbatch" { (a[0].usize()?, &a[1]) } else { (0, &a[0]) };
             let n = fs.list()?.len();
             st.hit(&format!("batch:len={}", if n <= 9 { n.to_string() } else { ">9".into() }));
+            if n >= 100 {
+                // many small factors: the chunking of par_batch_multiply (len / threads, remainder chunks) matters here
+                st.hit(&format!("batch:many-factors len={n}"));
+                if op == "parbatch" && t >= 1 {
+                    let chunk = usize::max(2, n / t);
+                    st.hit(&format!("parbatch:many-factors first-round remainder={}", if n % chunk == 0 { "0" } else { "nonzero" }));
+                }
+            }
+            if fs.list()?.iter().all(|p| p.list().is_some_and(|l| l.len() == 2)) && n >= 2 {
+                st.hit("batch:every-factor-has-two-stored-coefficients");
+            }
             if op == "parbatch" {
                 let cur = std::thread::available_parallelism().map(|n| n.get()).unwrap_or(1);
                 if t >= 1 && t != cur && std::env::var("TFH_CHILD").is_err() {
@@ -696,6 +707,87 @@ pub fn gen(rng: &mut Rng, thorough: bool, out: &mut Vec<String>) {
                     }
                 }
             }
+        }
+    }
+    // 6b. MANY small factors (degree 0..2, no zero factor so that every factor matters): list lengths around 128/256 and
+    //     lengths that are not multiples of `max(2, len / threads)` for the thread counts used -- a parallel round
+    //     that drops or duplicates a remainder chunk changes the degree of the product
+    let many: Vec<usize> = vec![127, 128, 129, 130, 131, 200, 255, 256, 257, 500];
+    for (i, &l) in many.iter().enumerate() {
+        for f in ["b", "x"] {
+            if f == "x" && !thorough && !(l == 131 || l == 257) {
+                continue;
+            }
+            let style = (i + if f == "x" { 1 } else { 0 }) % 2;
+            let mut fs = vec![];
+            for _ in 0..l {
+                let d = if style == 0 { 1 } else { rng.range(0, 3) as i64 };
+                let mut v = if f == "x" { X3::fmtl(&gen_x(rng, d, 0)) } else { fmt_list_u64(&gen_b(rng, d, 0)) };
+                if style == 0 {
+                    // monic linear factor X - r
+                    let r = rng.fval();
+                    v = if f == "x" { format!("[({};{};0),(1;0;0)]", r, rng.below(3)) } else { format!("[{},1]", r) };
+                }
+                fs.push(v);
+            }
+            let fs = format!("[{}]", fs.join(","));
+            out.push(format!("poly batch {f} {fs}"));
+            // thread counts for which `l % max(2, l / threads) != 0` for most of the lengths (3 covers 128/200/256/500)
+            for &th in &[2usize, 3, 16] {
+                if f == "b" || th == 3 || thorough {
+                    out.push(format!("poly parbatch {f} {th} {fs}"));
+                }
+            }
+        }
+    }
+    // 6c. every factor has exactly two STORED coefficients and leading coefficient 1, but some of them are the
+    //     constant 1 stored as [1,0] (e.g. the result of (X+1) - X), others constants [c,0] or the zero [0,0]:
+    //     a "all factors are monic linear" shortcut keyed on the stored length must not fire
+    for f in ["b", "x"] {
+        let one0 = if f == "x" { "[(1;0;0),(0;0;0)]" } else { "[1,0]" };
+        let zero0 = if f == "x" { "[(0;0;0),(0;0;0)]" } else { "[0,0]" };
+        let lin = |rng: &mut Rng| -> String {
+            let r = rng.fval();
+            if f == "x" { format!("[({};1;0),(1;0;0)]", r) } else { format!("[{},1]", r) }
+        };
+        let cst = |rng: &mut Rng| -> String {
+            let c = 2 + rng.below(P - 2);
+            if f == "x" { format!("[({};0;0),(0;0;0)]", c) } else { format!("[{},0]", c) }
+        };
+        for &l in &[1usize, 2, 3, 4, 5, 8, 9, 16, 17, 130] {
+            for variant in 0..4 {
+                let mut fs: Vec<String> = (0..l).map(|_| lin(rng)).collect();
+                let pos = rng.below(l as u64) as usize;
+                match variant {
+                    0 => fs[pos] = one0.to_string(),
+                    1 => {
+                        fs[pos] = one0.to_string();
+                        fs[l - 1] = one0.to_string();
+                        fs[0] = one0.to_string();
+                    }
+                    2 => fs[pos] = cst(rng),
+                    _ => fs[pos] = if l > 16 { one0.to_string() } else { zero0.to_string() },
+                }
+                let fs = format!("[{}]", fs.join(","));
+                out.push(format!("poly batch {f} {fs}"));
+                let th = *rng.pick(&[1usize, 2, 3, 16]);
+                out.push(format!("poly parbatch {f} {th} {fs}"));
+            }
+        }
+        // padded linears [a,1,0] and padded constants [c,0,0] among two-coefficient factors
+        for _ in 0..(if thorough { 20 } else { 4 }) {
+            let l = rng.range(2, 9) as usize;
+            let fs: Vec<String> = (0..l)
+                .map(|_| match rng.below(5) {
+                    0 => one0.to_string(),
+                    1 => { let v = lin(rng); format!("{},{}]", &v[..v.len() - 1], if f == "x" { "(0;0;0)" } else { "0" }) }
+                    2 => { let v = cst(rng); format!("{},{}]", &v[..v.len() - 1], if f == "x" { "(0;0;0)" } else { "0" }) }
+                    _ => lin(rng),
+                })
+                .collect();
+            let fs = format!("[{}]", fs.join(","));
+            out.push(format!("poly batch {f} {fs}"));
+            out.push(format!("poly parbatch {f} {} {fs}", *rng.pick(&[1usize, 3, 16])));
         }
     }
     // 7. scalar products, scale, shift
